@@ -20,7 +20,77 @@ def _fmt(fmt):
     raise core.Escape("struct format %r with symbolic operand" % (fmt,))
 
 
+def _items(fmt):
+    """parse a standard-size format (explicit byte order) into [(count, code)]; None if it uses something else"""
+    import re
+    if isinstance(fmt, bytes):
+        fmt = fmt.decode()
+    if not fmt or fmt[0] not in "<>!":
+        return None
+    out = []
+    for cnt, code in re.findall(r"(\d*)([a-zA-Z?])", fmt[1:].replace(" ", "")):
+        if code not in SIZES and code not in "csx":
+            return None
+        out.append((int(cnt) if cnt else None, code))
+    if "".join("%s%s" % ("" if c is None else c, k) for c, k in out) != fmt[1:].replace(" ", ""):
+        return None
+    return fmt[0] != "<", out
+
+
+def _pack_one(big, code, v):
+    n = SIZES[code]
+    if isinstance(v, SymInt):
+        full = 256 ** n
+        if code.islower():
+            if not (-(full // 2) <= v < full // 2):
+                raise _real.error("argument out of range")
+            v = SymInt(z3.simplify(z3.If(v.t < 0, v.t + full, v.t)))
+        elif not (0 <= v < full):
+            raise _real.error("argument out of range")
+        b = be_encode(v, n)
+        return list(b.e if big else b.e[::-1])
+    return list(_real.pack((">" if big else "<") + code, v))
+
+
+def _pack_multi(fmt, vals):
+    parsed = _items(fmt)
+    if parsed is None:
+        raise core.Escape("struct format %r with symbolic operand" % (fmt,))
+    big, items = parsed
+    vals = list(vals)
+    out = []
+    for cnt, code in items:
+        if code == "x":
+            out += [0] * (cnt or 1)
+        elif code == "s":
+            n = 1 if cnt is None else cnt
+            if not vals:
+                raise _real.error("pack expected more items")
+            v = vals.pop(0)
+            if not isinstance(v, (bytes, bytearray, SymBytes)):
+                raise _real.error("argument for 's' must be a bytes object")
+            el = list(v.e) if isinstance(v, SymBytes) else list(v)
+            el = el[:n] + [0] * (n - len(el[:n]))        # struct truncates or zero-pads to the field width, silently
+            out += el
+        elif code == "c":
+            for _ in range(cnt or 1):
+                v = vals.pop(0)
+                if not isinstance(v, (bytes, bytearray)) or len(v) != 1:
+                    raise _real.error("char format requires a bytes object of length 1")
+                out += list(v)
+        else:
+            for _ in range(cnt or 1):
+                if not vals:
+                    raise _real.error("pack expected more items")
+                out += _pack_one(big, code, vals.pop(0))
+    if vals:
+        raise _real.error("pack expected fewer items")
+    return SymBytes(out)
+
+
 def pack(fmt, *vals):
+    if any(isinstance(v, (SymInt, SymBytes)) for v in vals) and (len(vals) != 1 or _items(fmt) is None or len(_items(fmt)[1]) != 1 or _items(fmt)[1][0][1] in "sc"):
+        return _pack_multi(fmt, vals)
     if any(isinstance(v, SymInt) for v in vals):
         big, n, signed = _fmt(fmt)
         if len(vals) != 1:
